@@ -38,6 +38,7 @@ inductive TraitType where
   | map (keys vals : List Val)                            -- Map({k: v})
   | tuple (items : List TraitType)                        -- Tuple(t1, …, tn), n ≥ 1
   | baseTuple (items : List TraitType)                    -- BaseTuple(t1, …, tn)
+  | validatedTuple (items : List TraitType) (fv : Option Nat)  -- ValidatedTuple(t1, …, tn[, fvalidate=f])
   | tupleAny                                              -- Tuple(): no_type_check
   | instance (cls : Ty) (allowNone : Bool) (adapt : Nat) (dflt : Val)  -- Instance(klass, allow_none=, adapt=)
   | type_ (cls : Ty) (allowNone : Bool)                   -- Type(klass=, allow_none=)
@@ -361,6 +362,24 @@ def pyValidate : TraitType → Val → Res
         | .error _ => .traitError
       else .traitError
     | _ => .traitError
+  -- ValidatedTuple.validate, 2517-2526: BaseTuple.validate, then `fvalidate(values)`
+  -- (its exceptions propagate); the VALIDATED tuple is returned
+  | .validatedTuple items fv, v =>
+    match v with
+    | .tuple _ vs | .list vs =>
+      if vs.length = items.length then
+        match ctraitValidateL items vs with
+        | .ok ws =>
+          match fv with
+          | none => .ok (.tuple false ws)
+          | some f =>
+            match E.pred f (.tuple false ws) with
+            | .ok true => .ok (.tuple false ws)
+            | .ok false => .traitError
+            | .error e => .raised e
+        | .error _ => .traitError
+      else .traitError
+    | _ => .traitError
   -- Tuple.validate (no_type_check), 2458-2469
   | .tupleAny, v =>
     match v with
@@ -493,6 +512,7 @@ def descOf : TraitType → Option Desc
   | .map keys _ => some (.map keys)                        -- 3147
   | .tuple items => some (.tuple (ctraitDescL items))      -- 2338-2339, 2441-2453
   | .baseTuple _ => none                                   -- 2372-2375
+  | .validatedTuple .. => none                             -- inherits BaseTuple.init_fast_validate
   | .tupleAny => none                                      -- 2450-2451
   -- Instance.init_fast_validate, 3667-3683
   | .instance cls an mode dflt =>
